@@ -425,6 +425,20 @@ func VfFindProviders() {
 		}
 		return resp, nil
 	}
+	if vfBool("providerStoreFails") {
+		// the local provider store cannot be read (closed, failing datastore): the
+		// search ends, and its channel is closed all the same
+		e.provs.getErr = true
+		n := 0
+		for range d.FindProvidersAsync(ctx, c, count) {
+			n++
+		}
+		vfWaitIdle()
+		vfAssert(n == 0, "findproviders/nothing-yielded-when-the-local-store-fails")
+		vfAssert(vfLiveGoroutines() == 1, "findproviders/no-goroutine-left-behind")
+		vfReach("findproviders/store-failure-end")
+		return
+	}
 	ch := d.FindProvidersAsync(ctx, c, count)
 	cancelAfter := -1
 	if vfParam("CANCEL") == 1 && vfBool("cancelEarly") {
